@@ -1,4 +1,5 @@
 import DmrVerif.Model.Trellis
+import DmrVerif.Model.TrellisStore
 
 /-!
 line-protocol operations for the rate ¾ trellis model (C10)
@@ -48,6 +49,93 @@ def trellisOp (op : String) (args : List String) : Option String :=
   | "tr.tribits_to_bits", [t] => do let t ← trNatsArg t; some (trOut trBitsOut (tribitsToBits t))
   | "tr.bits_to_tribits", [b] => do let b ← trBitsArg b; some (trNatsOut (bitsToTribits false b))
   | "tr.bits_to_tribits_le", [b] => do let b ← trBitsArg b; some (trNatsOut (bitsToTribits true b))
+  | "tr.encode_foreign", [n] => do let n ← n.toNat?; some (encodeForeign n)
   | _, _ => none
+
+/-! ### histories: every argument and every result is an object the caller keeps (`Store`)
+
+`hs.new <kind> <value>` (kinds: `b` big-endian bitarray or other 0/1 sequence, `l` little-endian
+bitarray, `i` signed numbers, `n` unsigned numbers, `o` bytes) answers the new handle;
+`hs.call <function> <handle>` answers `<new handle> <object>`; `hs.edit <handle> <edit> …` answers `ok`;
+`hs.read <handle>` answers the object's current content.  Objects are written `<kind>:<value>`. -/
+
+def objArg (kind value : String) : Option Obj :=
+  match kind with
+  | "b" => (trBitsArg value).map (Obj.bits false)
+  | "l" => (trBitsArg value).map (Obj.bits true)
+  | "i" => (trIntsArg value).map Obj.ints
+  | "n" => (trNatsArg value).map Obj.nats
+  | "o" => (hexToBytes value).map Obj.octets
+  | _ => none
+
+def objOut : Obj → String
+  | .bits false v => "b:" ++ trBitsOut v
+  | .bits true v => "l:" ++ trBitsOut v
+  | .ints v => "i:" ++ trIntsOut v
+  | .nats v => "n:" ++ trNatsOut v
+  | .octets v => "o:" ++ bytesToHex' v
+  | .raised e => e.toString
+  | .void => "ERR unmodelled"
+
+def fnArg : String → Option Fn
+  | "encode" => some .encode
+  | "decode" => some .decode
+  | "decode_bytes" => some .decodeBytes
+  | "bits_to_dibits" => some .bitsToDibits
+  | "dibits_to_bits" => some .dibitsToBits
+  | "deinterleave" => some .deinterleave
+  | "interleave" => some .interleave
+  | "dibits_to_points" => some .dibitsToPoints
+  | "points_to_dibits" => some .pointsToDibits
+  | "points_to_tribits" => some .pointsToTribits
+  | "tribits_to_points" => some .tribitsToPoints
+  | "tribits_to_bits" => some .tribitsToBits
+  | "bits_to_tribits" => some .bitsToTribits
+  | _ => none
+
+def mutArg : List String → Option Mut
+  | ["flip", i] => i.toNat?.map Mut.flip
+  | ["put", i, v] => do let i ← i.toNat?; let v ← v.toInt?; some (Mut.put i v)
+  | ["extend", k, v] => (objArg k v).map Mut.extend
+  | ["del", lo, hi] => do let lo ← lo.toNat?; let hi ← hi.toNat?; some (Mut.del lo hi)
+  | ["clear"] => some Mut.clear
+  | ["assign", k, v] => (objArg k v).map Mut.assign
+  | ["reverse"] => some Mut.reverse
+  | _ => none
+
+def trellisStep (h : Store) (op : String) (args : List String) : Store × String :=
+  let bad := (h, "ERR bad-op " ++ op)
+  match op, args with
+  | "hs.reset", [] => (Store.empty, "ok")
+  | "hs.new", [k, v] =>
+    match objArg k v with
+    | some o => ((HOp.new o).run h, toString h.size)
+    | none => bad
+  | "hs.call", [f, r] =>
+    match fnArg f, r.toNat? with
+    | some f, some r =>
+      if r < h.size then
+        let h' := (HOp.call f r).run h
+        (h', toString h.size ++ " " ++ objOut ((h'.read h.size).getD .void))
+      else (h, "ERR ref")
+    | _, _ => bad
+  | "hs.edit", r :: m =>
+    match r.toNat?, mutArg m with
+    | some r, some m =>
+      match h.read r with
+      | some o => if (m.apply o).isSome then ((HOp.edit r m).run h, "ok") else (h, "ERR bad-edit")
+      | none => (h, "ERR ref")
+    | _, _ => bad
+  | "hs.read", [r] =>
+    match r.toNat? with
+    | some r =>
+      match h.read r with
+      | some o => (h, objOut o)
+      | none => (h, "ERR ref")
+    | none => bad
+  | _, _ =>
+    match trellisOp op args with
+    | some out => (h, out)
+    | none => bad
 
 end Dmr.Driver
